@@ -1,0 +1,23 @@
+//go:build verif
+
+package chacha20poly1305
+
+// Verification hooks for /verif (group aead). Add-only; compiled only with
+// -tags verif. See verif_hooks_aead_asm.go / verif_hooks_aead_noasm.go for
+// the implementation-path switch.
+
+// VerifSealGeneric runs the portable Go Seal (RFC 8439 construction) for a
+// 12-byte nonce regardless of the path the CPU selects.
+func VerifSealGeneric(key, dst, nonce, plaintext, additionalData []byte) []byte {
+	c := new(chacha20poly1305)
+	copy(c.key[:], key)
+	return c.sealGeneric(dst, nonce, plaintext, additionalData)
+}
+
+// VerifOpenGeneric runs the portable Go Open for a 12-byte nonce and a
+// ciphertext of at least 16 bytes.
+func VerifOpenGeneric(key, dst, nonce, ciphertext, additionalData []byte) ([]byte, error) {
+	c := new(chacha20poly1305)
+	copy(c.key[:], key)
+	return c.openGeneric(dst, nonce, ciphertext, additionalData)
+}
